@@ -3,6 +3,7 @@
 //!   ohharness run <suite> <quick|thorough> <seed>   generate operations and execute them
 //!   ohharness exec                                   execute the operation lines read on stdin
 mod ast;
+mod bdays;
 mod c14;
 mod c15;
 mod cal;
